@@ -951,3 +951,116 @@ def _set_rel(I, a, ci, dt):
         if map_find(I, y, e.f[0]) < 0:
             return False
     return True
+
+
+# ------------------------------------------------------------------ vec![..] lowering, ranges, floats
+
+@reg('Box::new_uninit', 'Box::new_uninit_slice')
+def _box_new_uninit(I, a, ci, dt):
+    return Ref(Cell(None), ())
+
+
+def _find_vec(v, depth=0):
+    if isinstance(v, VecVal):
+        return v
+    if isinstance(v, Struct) and depth < 6:
+        for x in v.f:
+            r = _find_vec(x, depth + 1)
+            if r is not None:
+                return r
+    return None
+
+
+@reg('box_assume_init_into_vec_unsafe', 'boxed::box_assume_init_into_vec_unsafe', 'Box::assume_init')
+def _box_assume_init_into_vec(I, a, ci, dt):
+    v = I.load(a[0]) if isinstance(a[0], Ref) else a[0]
+    r = _find_vec(v)
+    if r is None:
+        raise Unmodelled('box_assume_init_into_vec_unsafe on %r' % (v,))
+    return r
+
+
+@reg('[]::into_vec', 'slice::into_vec')
+def _slice_into_vec(I, a, ci, dt):
+    v = a[0]
+    v = I.deref_value(v) if isinstance(v, Ref) else v
+    r = _find_vec(v)
+    if r is None:
+        raise Unmodelled('into_vec on %r' % (v,))
+    return r
+
+
+@reg('vec::from_elem', 'from_elem')
+def _vec_from_elem(I, a, ci, dt):
+    n = I.concretize(a[1])
+    return VecVal([clone_value(I, a[0]) for _ in range(n)])
+
+
+def _range_contains(I, rng, x):
+    rng = I.deref_value(rng) if isinstance(rng, Ref) else rng
+    x = I.deref_value(x) if isinstance(x, Ref) else x
+    nm = rng.name
+    if nm == 'Range':
+        return sym_and(cmp_scalar('Le', rng.f[0], x), cmp_scalar('Lt', x, rng.f[1]))
+    if nm == 'RangeInclusive':
+        return sym_and(cmp_scalar('Le', rng.f[0], x), cmp_scalar('Le', x, rng.f[1]))
+    if nm == 'RangeFrom':
+        return cmp_scalar('Le', rng.f[0], x)
+    if nm == 'RangeTo':
+        return cmp_scalar('Lt', x, rng.f[0])
+    if nm == 'RangeToInclusive':
+        return cmp_scalar('Le', x, rng.f[0])
+    if nm == 'RangeFull':
+        return True
+    raise Unmodelled('contains on %r' % (rng,))
+
+
+@reg('Range::contains', 'RangeInclusive::contains', 'RangeFrom::contains', 'RangeTo::contains', 'RangeToInclusive::contains',
+     'RangeBounds::contains')
+def _range_contains_m(I, a, ci, dt):
+    return _range_contains(I, a[0], a[1])
+
+
+@reg('Range::is_empty', 'RangeInclusive::is_empty')
+def _range_is_empty(I, a, ci, dt):
+    r = I.deref_value(a[0]) if isinstance(a[0], Ref) else a[0]
+    if r.name == 'Range':
+        return cmp_scalar('Ge', r.f[0], r.f[1])
+    return cmp_scalar('Gt', r.f[0], r.f[1])
+
+
+@reg('Range::len', '<Range as ExactSizeIterator>::len')
+def _range_len(I, a, ci, dt):
+    r = I.deref_value(a[0]) if isinstance(a[0], Ref) else a[0]
+    d = r.f[1] - r.f[0]
+    if isinstance(d, int):
+        return max(0, d)
+    return d if I.branch(d >= 0) else 0
+
+
+@reg('usize::saturating_mul', 'u64::saturating_mul')
+def _sat_mul(I, a, ci, dt):
+    r = a[0] * a[1]
+    m = (1 << 64) - 1
+    if isinstance(r, int):
+        return min(r, m)
+    return r if I.branch(r <= m) else m
+
+
+@reg('char::to_digit')
+def _to_digit(I, a, ci, dt):
+    c = a[0]
+    radix = I.concretize(a[1])
+    if radix != 10:
+        raise Unmodelled('to_digit radix %d' % radix)
+    if I.branch(byte_between(c, 48, 57)):
+        return Some(c - 48)
+    return NONE
+
+
+@reg('<u8 as Into>::into', '<u32 as Into>::into', '<usize as From>::from', '<u64 as From>::from', '<u32 as From>::from',
+     'usize::from', 'u64::from', 'u32::from', '<char as Into>::into', '<u32 as TryInto>::try_into')
+def _int_into(I, a, ci, dt):
+    if ci.method == 'try_into':
+        return Ok(a[0])
+    return a[0]
